@@ -255,7 +255,7 @@ PROPS = {
               'unsuffixed literal); + - * / % - operand types that agree on a number type, which is the result type; & | ^ - agreeing bool or number types; < > - agreeing '
               'number types, result bool; == != - agreeing types, result bool; << >> - a number and a u8 amount, result the left type; if / else - the typed condition is a bool and the branch types agree on the type of the expression. That the remaining constructs of type_check consult '
               'these deciders, scoping, mutability, recursion / unused-function checks and pattern refutability are NOT under contract: as the labelled '
-              'bounded stand-in, a catalogue of 115 static-rule violations (every rule named in the statement, several shapes each: operand / argument / '
+              'bounded stand-in, a catalogue of 123 static-rule violations (every rule named in the statement, several shapes each: operand / argument / '
               'return / branch / annotation / assignment type mismatches for every pair of 17 types, non-Boolean conditions, unknown and out-of-scope '
               'identifiers / fields / variants / functions, assignment to non-mut bindings / parameters / arrays / loop variables, too few and too many '
               'arguments / fields, refutable patterns in let and for, direct / mutual / 3-cycle recursion, unused private functions, public functions '
@@ -326,7 +326,7 @@ PROPS = {
               'paths left on the same wires keeps them. (3) where an assignment through an accessor lands (VarAssign arm of TypedStmt::compile, the lifted offset computations of the struct-field and tuple-field branches): the fields / components BEFORE the assigned one, one after the other, occupy the wires before it, and exactly the wires of the named field are selected for the read-modify-write (the size of a type is an uninterpreted function of the type). NOT under contract: the walk of mux_envs over scopes and names (BTreeMap iteration), and the arms '
               'of compile that USE the environment - VarAssign through nested accessors, the per-path clones of If / Match / JoinLoop / && / ||, the scopes of '
               'Block / FnCall / ForEachLoop; as the labelled bounded stand-in, random programs (let / let mut with shadowing, assignment and op-assignment '
-              'through constant and input-dependent array / tuple / struct (three fields) accessors, whole-value copies, right-hand sides with side effects (also under a constant factor), nested blocks, if / else with side effects in '
+              'through constant and input-dependent array / tuple / struct (three fields) accessors, nested ones through a three-element array of tuples and a nested array, whole-value copies, right-hand sides with side effects (also under a constant factor), nested blocks, if / else with side effects in '
               'conditions and short-circuit operands, match, for loops, calls of helpers whose parameters carry the names of the caller\'s variables and '
               'that use a constant which the caller shadows) are compiled and compared, on 12 inputs each, with a reference interpreter (lexical scopes, '
               'values copied on assignment and call): all variables of main are compared at the end.',
